@@ -268,7 +268,7 @@ const PRIM_PROGS: [(&str, &str, &str, &str); 5] = [
 
 /// A blanket trait whose BY-VALUE methods carry the names of methods generated code might call with method syntax
 /// (`x.finish()`, `x.field(..)`, `x.clone()`, ..): by-value candidates win over inherent `&self` / `&mut self` ones.
-const HOSTILE: &str = "pub mod hostile {\n    pub trait Hostile: Sized {\n        fn finish(self) -> ::core::fmt::Result { ::core::result::Result::Err(::core::fmt::Error) }\n        fn field(self, _a: &str, _b: &dyn ::core::fmt::Debug) -> Self { self }\n        fn finish_non_exhaustive(self) -> ::core::fmt::Result { ::core::result::Result::Err(::core::fmt::Error) }\n        fn clone(self) -> Self { self }\n        fn clone_from(self, _o: &Self) {}\n        fn eq(self, _o: &Self) -> bool { false }\n        fn ne(self, _o: &Self) -> bool { false }\n        fn cmp(self, _o: &Self) -> ::core::cmp::Ordering { ::core::cmp::Ordering::Less }\n        fn partial_cmp(self, _o: &Self) -> ::core::option::Option<::core::cmp::Ordering> { ::core::option::Option::None }\n        fn hash(self, _h: &mut dyn ::core::hash::Hasher) {}\n        fn then(self, _o: ::core::cmp::Ordering) -> ::core::cmp::Ordering { ::core::cmp::Ordering::Less }\n        fn reverse(self) -> ::core::cmp::Ordering { ::core::cmp::Ordering::Less }\n        fn is_eq(self) -> bool { false }\n        fn into(self) -> Self { self }\n        fn neg(self) -> Self { self }\n        fn not(self) -> Self { self }\n        fn add(self, _o: Self) -> Self { self }\n        fn deref(self) -> Self { self }\n    }\n    impl<T> Hostile for T {}\n}\n";
+pub const HOSTILE: &str = "pub mod hostile {\n    pub trait Hostile: Sized {\n        fn finish(self) -> ::core::fmt::Result { ::core::result::Result::Err(::core::fmt::Error) }\n        fn field(self, _a: &str, _b: &dyn ::core::fmt::Debug) -> Self { self }\n        fn finish_non_exhaustive(self) -> ::core::fmt::Result { ::core::result::Result::Err(::core::fmt::Error) }\n        fn clone(self) -> Self { self }\n        fn clone_from(self, _o: &Self) {}\n        fn eq(self, _o: &Self) -> bool { false }\n        fn ne(self, _o: &Self) -> bool { false }\n        fn cmp(self, _o: &Self) -> ::core::cmp::Ordering { ::core::cmp::Ordering::Less }\n        fn partial_cmp(self, _o: &Self) -> ::core::option::Option<::core::cmp::Ordering> { ::core::option::Option::None }\n        fn hash(self, _h: &mut dyn ::core::hash::Hasher) {}\n        fn then(self, _o: ::core::cmp::Ordering) -> ::core::cmp::Ordering { ::core::cmp::Ordering::Less }\n        fn reverse(self) -> ::core::cmp::Ordering { ::core::cmp::Ordering::Less }\n        fn is_eq(self) -> bool { false }\n        fn into(self) -> Self { self }\n        fn neg(self) -> Self { self }\n        fn not(self) -> Self { self }\n        fn add(self, _o: Self) -> Self { self }\n        fn deref(self) -> Self { self }\n    }\n    impl<T> Hostile for T {}\n}\n";
 
 fn prim_program(pi: usize, name: &str) -> String {
     let (_, _, def, run) = PRIM_PROGS[pi];
